@@ -118,7 +118,7 @@ theorem spec_maildirMove {cs : List Bytes} (env : PEnv) (src dst : Maildir) (ms 
     have hg2 := hg1.step_err (.renameat sh ms.name d dstname) e (by intro _ h; cases h) (by intro _ h; cases h) (by intro _ h; cases h)
     refine ⟨hg2.good, ?_⟩
     generalize hw2 : stepWorld w1 (.renameat sh ms.name d dstname) (.err e) = w2 at hg2 ⊢
-    have hobs2 : w2.dirPath d = some p2 ∧ w2.obj fd = .file fid 0 true ∧ w2.file fid = some ⟨[], [], 0⟩ ∧
+    have hobs2 : w2.dirPath d = some p2 ∧ w2.obj fd = .file fid 0 true ∧ w2.file fid = some ⟨[], []⟩ ∧
         (∀ q m, w2.lookup q m = w1.lookup q m) ∧ w2.nextFid = w1.nextFid := by
       subst hw2
       refine ⟨?_, ?_, ?_, ?_, ?_⟩
